@@ -35,6 +35,8 @@ class GhostFile:
         self.budget = None
 
     def seek(self, off, whence=0):
+        if getattr(self, 'io_errors', False) and self.v.choose(2, 'seek-fails?') == 1:
+            self.v.ctx.raise_py(IOError, 'seek failed')
         # io.IOBase.seek: SEEK_SET -> off; SEEK_END -> size + off (off usually negative)
         if whence == os.SEEK_END:
             self.pos = self.size + off
@@ -269,6 +271,7 @@ class _OpenFile:
             v.ctx.raise_py(v.real('falcon:HTTPNotFound'))
         size = v.int('st_size', 0)
         self.fh = GhostFile(v, size)
+        self.fh.io_errors = True  # the operating system may fail a seek: answered with a 404 and a closed file
         return self.fh, _Stat(size)
 
 
@@ -396,6 +399,8 @@ def _static_harness(v):
     if out.exc is not None:
         v.check('anything-else-is-a-404-or-a-416', out.exc.isa(HTTPNotFound) or out.exc.isa(H416))
         v.check('failure-sets-no-stream', resp.stream is None)
+        if opener.fh is not None and v.ctx.choices and v.ctx.labels and any(l.startswith('seek-fails?=1') for l in v.ctx.labels):
+            v.check('io-failure-closes-the-file', opener.fh.closed)
         if out.exc.isa(H416):
             v.check('416-only-for-a-bytes-range', req.range_unit == 'bytes')
         return
